@@ -12,6 +12,13 @@ Fixpoint avl (t : tree) : Prop :=
   | N _ _ b l r => avl l /\ avl r /\ b = height r - height l /\ -1 <= b <= 1
   end.
 
+Lemma avl_N : forall i d b l r,
+  avl (N i d b l r) <-> avl l /\ avl r /\ b = height r - height l /\ -1 <= b <= 1.
+Proof. intros. reflexivity. Qed.
+
+Lemma height_N : forall i d b l r, height (N i d b l r) = 1 + Z.max (height l) (height r).
+Proof. reflexivity. Qed.
+
 Lemma height_nonneg : forall t, 0 <= height t.
 Proof. induction t; cbn [height]; lia. Qed.
 
